@@ -75,7 +75,7 @@ def exprsOf : CStmt → List CExpr
   | .chain _ lhs2 op2 e => if op2 == "=" then [e] else [lhs2, e]
   | .jump e => [e]
   | .skip _ => []
-  | .exprstmt _ => []
+  | .exprstmt e => [e]
   | .ret _ => []
   | .vcall _ _ _ _ => []
 def exprsOfList : List CStmt → List CExpr
@@ -135,7 +135,9 @@ mutual
     declarations and assigned locals have their declared type (width ≠ 1: there is no 1-bit C type; a
     1-bit target would make `ValueType.__eq__` confuse it with the IL boolean), assigned registers have
     the documented operand width and are not source operands, the loop variable is 32 bit wide,
-    the jump target does not read `jump_flag`, stores are not 1 bit wide. -/
+    the jump target does not read `jump_flag`, stores are not 1 bit wide.  A bare value statement `e;` writes nothing
+    and needs no condition of its own: its value is among `exprsOf` (so the certificates demand `WFES c e`), and
+    `compileStmt`/`HybFreeS` reject a value with a side effect. -/
 def WFStmt (c : Ctx) : CStmt → Bool
   | .decl t n _ => lookupS n c.types == some t && t.width != 1
   | .assign lhs op _ => assignOps.contains op && lhsOK c lhs
@@ -146,7 +148,7 @@ def WFStmt (c : Ctx) : CStmt → Bool
   | .for_ v _ _ b => (match lookupS v c.types with | some t => t.width == 32 | none => false) && WFStmts c b
   | .jump e => !(readVars e).contains "jump_flag"
   | .skip _ => true
-  | .exprstmt _ => false
+  | .exprstmt _ => true     -- a bare pure value: nothing is written (its expression is in `exprsOf`)
   | .ret _ => false
   | .vcall _ _ _ _ => false
 def WFStmts (c : Ctx) : List CStmt → Bool
@@ -218,7 +220,7 @@ def CarveS (CarveE : CExpr → Bool) (env : CEnv) : CStmt → Bool
         | .ok ce => ce.ty.width == 32 || castOK { signed := false, width := 32, group := 1 } ce
         | .error _ => true)
   | .skip _ => true
-  | .exprstmt _ => true
+  | .exprstmt e => CarveE e
   | .ret _ => true
   | .vcall _ _ _ _ => true
 def CarveSs (CarveE : CExpr → Bool) (env : CEnv) : List CStmt → Bool
